@@ -58,6 +58,46 @@ CHECKS = {
                      "and the real scheduler is killed after every k-th recorded event of base schedules (with long-running and short jobs), "
                      "restarted, and the whole two-run history validated against the specification.",
                 note=SCHED_NOTE + " Scheduler death is injected at loop-callback boundaries of the in-process engine; real-process kills are covered for the job side by C10."),
+    "C01": dict(category="model_checking", engine="E3", design="5 (C01), 3.5, 4.2",
+                technique="TLA+ XpmConfig/MC_Config: TLC exhaustive over seal/request/assign/submit histories (IdIsCanonical) + TLC-generated behaviours replayed on real objects with byte-level stream comparison + code->spec stream validation",
+                text="The identifier byte stream (Enc), the caches and sealing are specified in TLA+; TLC checks on all 3-node pointer/list graphs "
+                     "(cycles, sharing) x all histories that every identifier request returns the canonical cache-free value; TLC-generated "
+                     "behaviours are replayed on real objects (tapped stream = specification stream byte for byte); random graphs are built in "
+                     "several processes / PYTHONHASHSEEDs / construction orders, before and after sealing, and compared with the specification "
+                     "and with identifiers pinned at the pinned commit.",
+                note="Trusted: SHA-256; the frozen schema spec/XpmSchema.tla (cross-checked against the live classes at every run); the golden corpus stands for 'earlier releases'."),
+    "C02": dict(category="model_checking", engine="E3", design="5 (C02), 3.5",
+                technique="TLA+ XpmConfig: Sig/Enc bijection checked by TLC on bounded families + edit-neighbour pairs of real graphs judged by TLC (equal signature => equal identifier) + schema evolution",
+                text="TLC proves over bounded families that the stream fed to the hash is determined by the declarative signature (which omits "
+                     "defaults, unset optionals, Meta/ignored, generated, meta-flagged children); pairs of real graphs one random edit apart are "
+                     "sent to TLC, which decides whether the signature changed and requires equal identifiers when it did not; the frozen schema "
+                     "is compared with what experimaestro derives; a second generation of the classes with extra defaulted/Meta/generated parameters must give equal identifiers.",
+                note="Tags, dependencies, launcher and run mode are absent from the specification's stream by construction: any use of them by the code shows as a stream mismatch."),
+    "C03": dict(category="model_checking", engine="E3", design="5 (C03), 3.5",
+                technique="TLA+ XpmConfig: injectivity of Enc w.r.t. Sig by cardinality (TLC) + edit-neighbour pairs judged by TLC (different signature => different identifier)",
+                text="TLC checks |{Enc}| = |{Sig}| = |{(Sig,Enc)}| over families of nested lists/dicts/strings and of structures (children in "
+                     "lists, dicts, meta flags, cycles); thousands of pairs of real graphs one edit apart (element moved between neighbouring "
+                     "containers, key renamed, swap, sibling move, enum/constant/class change, pre-task set) are checked: stream = Enc and "
+                     "different signatures never share a SHA-256 identifier; histories with task submission check that the producing task enters the identifier.",
+                note="Domain as stated by the property (no control characters, dicts <= 2 levels); SHA-256 collision resistance trusted."),
+    "C14": dict(category="model_checking", engine="E3", design="5 (C14), 3.5",
+                technique="TLA+ MC_Config: SealClosed / SealedFrozen / IdIsCanonical by TLC + replay of TLC behaviours (assignment attempts interleaved with identifier requests) + sealed-set validation by TLC on real graphs",
+                text="TLC checks that sealing is transitive (values, lists, dicts, pre/init tasks, task links) and that sealed nodes never change; "
+                     "behaviours with assignment attempts before/after sealing and submission are replayed on real objects (rejections and "
+                     "identifiers must match); after sealing real random graphs the set of sealed objects is validated against Reach(); producer/consumer "
+                     "scenarios probe every mutation entry point on every configuration reachable from a submitted task.",
+                note="In-place mutation of a stored list object (cfg.l.append) is outside the statement (not an assignment) and not checked."),
+    "C17": dict(category="model_checking", engine="E3", design="5 (C17), 3.5",
+                technique="TLA+ XpmConfig GenWalk: TLC checks inside/distinct over the structure family; generated paths of real sealed graphs validated by TLC; dry-run resubmission",
+                text="The Sealer walk (first-visit DFS with context keys) is specified; TLC checks GenInside/GenDistinct on the structure family and "
+                     "validates the generated path of every node of random real graphs (shared nodes, lists, dicts, pre/init tasks); the same "
+                     "configuration submitted twice (dry run) must get equal, distinct paths inside the job directory.",
+                note="Domain: plain file names and plain dict keys."),
+    "C20": dict(category="model_checking", engine="E3", design="5 (C20), 3.5, 3.4",
+                technique="TLA+ XpmConfig: DeprecatedSame by TLC + class-swap pairs judged by TLC; fix_deprecated part added with the workspace engine",
+                text="Identifier half: TLC checks that swapping a deprecated class for its replacement at any position leaves Enc unchanged; real "
+                     "graphs with K2Old/K2 swaps are validated. Repair half (fix_deprecated): see evidence key fix_deprecated.",
+                note="Frozen schema states that K2Old hashes with K2's type identifier; cross-checked against the live classes."),
 }
 
 REASON_TODO = "check not built yet (build in progress, see DESIGN.md section 12)"
